@@ -61,9 +61,24 @@ func createToken(e *env, name, perms string, exp *time.Time) tokenRef {
 // an older release would have left in api_tokens; cluster mode: a CreateToken
 // command carrying that hash, applied through the FSM.
 func createLegacyToken(e *env, name, value, perms string) tokenRef {
+	return createLegacyTokenPrefixed(e, name, value, perms, "")
+}
+
+// createUnprefixedToken plants the row an upgraded deployment holds for a token issued
+// before the token_prefix column existed: the start-up migration (backfillTokenPrefixes)
+// tags such rows with token_prefix = '__legacy__', and VerifyToken finds them through
+// the "OR token_prefix = '__legacy__'" arm of its candidate query.
+func createUnprefixedToken(e *env, name, value, perms string) tokenRef {
+	return createLegacyTokenPrefixed(e, name, value, perms, "__legacy__")
+}
+
+func createLegacyTokenPrefixed(e *env, name, value, perms, forcedPrefix string) tokenRef {
 	h := sha256.Sum256([]byte(value))
 	hash := hex.EncodeToString(h[:])
 	prefix := hash[:16]
+	if forcedPrefix != "" {
+		prefix = forcedPrefix
+	}
 	if e.mode == modeCluster {
 		payload, _ := json.Marshal(araft.CreateTokenPayload{Token: araft.TokenEntry{Name: name, Description: "legacy", Permissions: perms,
 			TokenHash: hash, TokenPrefix: prefix, CreatedAtUnixNano: time.Now().UnixNano(), Enabled: true}})
@@ -133,7 +148,7 @@ func allSchedules() []schedule {
 	var out []schedule
 	for _, mode := range []string{modeDirect, modeCluster} {
 		for _, mut := range []string{"revoke", "delete", "rotate"} {
-			for _, n := range []string{"hit", "miss/cold", "miss/warm", "matched/cold", "matched/others", "cached/cold", "cached/others"} {
+			for _, n := range []string{"hit", "hit-unprefixed", "miss/cold", "miss/warm", "matched/cold", "matched/others", "cached/cold", "cached/others"} {
 				out = append(out, schedule{mode, mut, n})
 			}
 		}
@@ -151,7 +166,13 @@ func cacheHits(e *env) int64 {
 func runSchedule(c *vlib.Ctx, s schedule) {
 	e := newEnv(s.Mode)
 	defer e.close()
-	target := createToken(e, "target", "read,write", nil)
+	target := tokenRef{}
+	if s.Name == "hit-unprefixed" {
+		// a token from before the token_prefix column (row tagged '__legacy__' by the migration)
+		target = createUnprefixedToken(e, "target", "tok_unprefixed_0123456789abcdef0123456789abcdef", "read,write")
+	} else {
+		target = createToken(e, "target", "read,write", nil)
+	}
 	res := schedResult{Schedule: s, MutationWhile: "n/a", HowToReplay: "./check C21 --replay <this file>"}
 	point := ""
 	variant := ""
@@ -170,7 +191,7 @@ func runSchedule(c *vlib.Ctx, s schedule) {
 
 	var mutErr error
 	var newValue string
-	if s.Name == "hit" {
+	if s.Name == "hit" || s.Name == "hit-unprefixed" {
 		if e.am.VerifyToken(target.value) == nil {
 			panic("fresh token does not verify")
 		}
